@@ -22,37 +22,56 @@
 #define F_MASK 0xE0u
 #define FAILED(s) (((s) & F_MASK) != 0)
 #define LEVEL(s) ((s) & 7u)
-/* a status word the library can hold: level in [BLOCK_VALID_TREE, BLOCK_CAN_BE_APPLIED], never BLOCK_CAN_BE_APPLIED together with BLOCK_FAILED_POP */
-#define WF(s) (LEVEL(s) >= 1 && LEVEL(s) <= 4 && !(LEVEL(s) == 4 && ((s) & F_POP) != 0))
+/* a status word the library can hold: level in [BLOCK_VALID_TREE, BLOCK_CAN_BE_APPLIED] (0 for a deleted block), never BLOCK_CAN_BE_APPLIED together with BLOCK_FAILED_POP */
+#define DELETED 0x400u
+#define ISDEL(s) (((s) & DELETED) != 0)
+/* (a temporarily deleted block keeps only its failure flags: level BLOCK_VALID_UNKNOWN - see deleteTemporarily in unit blockindex) */
+#define WF(s) (ISDEL(s) ? LEVEL(s) == 0 : (LEVEL(s) >= 1 && LEVEL(s) <= 4 && !(LEVEL(s) == 4 && ((s) & F_POP) != 0)))
 #define S(st, i) ((st)[(i) < 0 ? 0 : (i)])
-/* tree invariant: a block carries BLOCK_FAILED_CHILD exactly when its parent is failed */
-#define INV1(st, x) ((((st)[x] & F_CHILD) != 0) == FAILED(S(st, PAR(x))))
+/* tree invariants: a (non-deleted) block carries BLOCK_FAILED_CHILD exactly when its parent is failed; the children of a deleted block are deleted */
+#define INV1(st, x) ((ISDEL((st)[x]) || (((st)[x] & F_CHILD) != 0) == FAILED(S(st, PAR(x)))) && (!ISDEL(S(st, PAR(x))) || ISDEL((st)[x])))
 #define INV(st) (INV1(st, 1) && INV1(st, 2) && INV1(st, 3) && INV1(st, 4) && ((st)[0] & F_CHILD) == 0)
+#define NODEL(st) (!ISDEL((st)[0]) && !ISDEL((st)[1]) && !ISDEL((st)[2]) && !ISDEL((st)[3]) && !ISDEL((st)[4]))
+/* isValid(): not failed and at least BLOCK_VALID_TREE */
+#define BVALID (!FAILED(st_in[b]) && LEVEL(st_in[b]) >= 1)
+/* the invalidating traversal reaches x: no block strictly between b and x was failed before */
+#define NF(st, i) (!FAILED(S(st, i)))
+#define REACHED_I(st, x, b) (A1(x) == (b) || (NF(st, A1(x)) && (A2(x) == (b) || (NF(st, A2(x)) && (A3(x) == (b) || (NF(st, A3(x)) && A4(x) == (b)))))))
 #define WFALL(st) (WF((st)[0]) && WF((st)[1]) && WF((st)[2]) && WF((st)[3]) && WF((st)[4]))
 /* no own failure between b and x: every block strictly between them is free of BLOCK_FAILED_BLOCK / BLOCK_FAILED_POP */
 #define CLEAN(st, i) ((S(st, i) & (F_BLOCK | F_POP)) == 0)
 #define REACHED(st, x, b) (A1(x) == (b) || (CLEAN(st, A1(x)) && (A2(x) == (b) || (CLEAN(st, A2(x)) && (A3(x) == (b) || (CLEAN(st, A3(x)) && A4(x) == (b)))))))
 #define HAD (st_in[b] & reason)
 #define OTHER (st_in[b] & F_MASK & ~reason)
-#define INVALIDATED(x) (HAD != 0 ? st_in[x] : (x) == b ? (st_in[b] | reason) : ISDESC(x, b) ? (st_in[x] | F_CHILD) : st_in[x])
+#define INVALIDATED(x) (HAD != 0 ? st_in[x] : (x) == b ? (st_in[b] | reason) : (BVALID && ISDESC(x, b) && REACHED_I(st_in, x, b)) ? (st_in[x] | F_CHILD) : st_in[x])
 #define REVALIDATED(x) (HAD == 0 ? st_in[x] : (x) == b ? (st_in[b] & ~reason) : (OTHER == 0 && ISDESC(x, b) && REACHED(st_in, x, b)) ? (st_in[x] & ~F_CHILD) : st_in[x])
-void w_subtree_c(const uint32_t* st_in, int op, int b, uint32_t reason, int sdb, unsigned onmain, uint32_t* st_out, int32_t* aux)
+/* C07: "the reported candidate tips are exactly the usable blocks that have no usable child" */
+#ifndef TIPLEVEL
+#define TIPLEVEL 1
+#endif
+#define CANTIP(s) (!ISDEL(s) && !FAILED(s) && LEVEL(s) >= TIPLEVEL)
+#define CHILDCAN(st, x, y) (PAR(y) == (x) && CANTIP((st)[y]))
+#define ISVALIDTIP(st, x) (CANTIP((st)[x]) && !CHILDCAN(st, x, 1) && !CHILDCAN(st, x, 2) && !CHILDCAN(st, x, 3) && !CHILDCAN(st, x, 4))
+#define TIPBIT(x) (((tips >> (x)) & 1u) != 0)
+#define TIPS_IN_OK (TIPBIT(0) == ISVALIDTIP(st_in, 0) && TIPBIT(1) == ISVALIDTIP(st_in, 1) && TIPBIT(2) == ISVALIDTIP(st_in, 2) && TIPBIT(3) == ISVALIDTIP(st_in, 3) && TIPBIT(4) == ISVALIDTIP(st_in, 4))
+#define TIPS_OUT_OK ((aux[2] != 0) == ISVALIDTIP(st_out, 0) && (aux[3] != 0) == ISVALIDTIP(st_out, 1) && (aux[4] != 0) == ISVALIDTIP(st_out, 2) && (aux[5] != 0) == ISVALIDTIP(st_out, 3) && (aux[6] != 0) == ISVALIDTIP(st_out, 4))
+void w_subtree_c(const uint32_t* st_in, int op, int b, uint32_t reason, int sdb, unsigned onmain, unsigned tips, uint32_t* st_out, int32_t* aux)
 __CPROVER_requires(__CPROVER_is_fresh(st_in, NB * 4) && __CPROVER_is_fresh(st_out, NB * 4) && __CPROVER_is_fresh(aux, 7 * 4))
 __CPROVER_requires(SHAPE_OK && op >= 0 && op <= 2 && b >= 1 && b < NB && (reason == F_BLOCK || reason == F_POP))
-__CPROVER_requires(WFALL(st_in) && INV(st_in))
+__CPROVER_requires(WFALL(st_in) && INV(st_in) && TIPS_IN_OK)
 /* doInvalidate asserts it: BLOCK_FAILED_POP is never put on a block at BLOCK_CAN_BE_APPLIED (the tree unapplies such a block first) */
 __CPROVER_requires(op == 1 || reason != F_POP || LEVEL(st_in[b]) < 4)
 __CPROVER_assigns(__CPROVER_object_whole(st_out), __CPROVER_object_whole(aux))
-/* invalidation flags exactly the subtree */
+/* invalidation flags exactly the subtree (descendants below an already failed block are not visited: if not deleted they carry the flag
+ * already, by the invariant; nothing below a B that was already invalid or deleted is touched) */
 __CPROVER_ensures(op != 0 || (st_out[0] == INVALIDATED(0) && st_out[1] == INVALIDATED(1) && st_out[2] == INVALIDATED(2) && st_out[3] == INVALIDATED(3) && st_out[4] == INVALIDATED(4)))
 /* revalidation clears the reason on B and BLOCK_FAILED_CHILD on exactly the descendants not shadowed by another invalid block */
 __CPROVER_ensures(op != 1 || (st_out[0] == REVALIDATED(0) && st_out[1] == REVALIDATED(1) && st_out[2] == REVALIDATED(2) && st_out[3] == REVALIDATED(3) && st_out[4] == REVALIDATED(4)))
 /* invalidate followed by revalidate returns every block's status */
-__CPROVER_ensures(op != 2 || HAD != 0 || (st_out[0] == st_in[0] && st_out[1] == st_in[1] && st_out[2] == st_in[2] && st_out[3] == st_in[3] && st_out[4] == st_in[4]))
+__CPROVER_ensures(op != 2 || HAD != 0 || !NODEL(st_in) || (st_out[0] == st_in[0] && st_out[1] == st_in[1] && st_out[2] == st_in[2] && st_out[3] == st_in[3] && st_out[4] == st_in[4]))
 /* the invariants are preserved by each operation */
 __CPROVER_ensures(WFALL(st_out) && INV(st_out))
 /* the best chain is moved off B before it is flagged: setState(parent of B) exactly when a valid B on the active chain gets invalidated */
-__CPROVER_ensures(op != 0 || aux[0] == ((HAD == 0 && !FAILED(st_in[b]) && ((onmain >> b) & 1u) != 0) ? PAR(b) : -1))
-/* B leaves the candidate-tip set; blocks outside the subtree keep their membership */
-__CPROVER_ensures(op != 0 || HAD != 0 || aux[2 + b] == 0)
-__CPROVER_ensures(op != 0 || ((b == 0 || ISDESC(0, b) || aux[2] == 1) && (b == 1 || ISDESC(1, b) || aux[3] == 1) && (b == 2 || ISDESC(2, b) || aux[4] == 1) && (b == 3 || ISDESC(3, b) || aux[5] == 1) && (b == 4 || ISDESC(4, b) || aux[6] == 1)));
+__CPROVER_ensures(op != 0 || aux[0] == ((HAD == 0 && BVALID && ((onmain >> b) & 1u) != 0) ? PAR(b) : -1))
+/* the candidate-tip set is again exactly the set of usable blocks without a usable child */
+__CPROVER_ensures(TIPS_OUT_OK);
